@@ -687,6 +687,12 @@ class _OsFault:
                 raise KeyboardInterrupt()
             if mode == "boom":
                 raise Boom("inside os.read")
+            if mode == "sigint":
+                # a real SIGINT arrives while the request is reading (its handler - the Input's own while sigint_event is on - runs on this
+                # thread before the read returns); the read then delivers what was typed
+                os.kill(os.getpid(), signal.SIGINT)
+                for _ in range(20):
+                    pass
         return os.read(fd, n)
 
 
@@ -719,6 +725,8 @@ def _between_requests(env, case, out):
                     if h1 is not h0 and h1 != h0:
                         out.fails.append(("C12.between_requests", "sigint_handler", f"SIGINT handler {what}: {h1!r:.80}, before the request: {h0!r:.80}"))
                     fault.script = []
+                    if case.get("leave_unconsumed") and i == len(case["requests"]) - 1:
+                        break           # the block ends with whatever the last request left queued (a SIGINT event, buffered keys)
                     while True:         # forget what is left over
                         try:
                             if inp.send(0) is None:
@@ -998,6 +1006,12 @@ def cases(tier, seed):
         for initial in ([], ["nonblock"], ["append", "handler_record"]):
             for rq in reqs:
                 add(scenario="between_requests", context="Input", flags=dict(flags, paste_threshold=8), initial=initial, requests=rq, thread="main")
+    # (7b) a SIGINT that arrives during a request which returns something else: the block ends with the SIGINT event still queued
+    for flags in INPUT_FLAGS:
+        for initial in ([], ["handler_record"], ["handler_raise", "wakeup"], ["handler_ign"]):
+            for rq in ([["61", ["sigint"], 1]], [["6162", ["sigint"], 1], ["", [], 0]], [["61", ["sigint"], 1], ["62", ["sigint"], 1]]):
+                add(scenario="between_requests", context="Input", flags=dict(flags, paste_threshold=8), initial=initial, requests=rq,
+                    leave_unconsumed=True, thread="main")
     # (8) a real SIGINT while a request is blocked
     for flags in INPUT_FLAGS[:: (1 if thorough else 3)] + ([] if thorough else [INPUT_FLAGS[2]]):
         for initial in ([], ["handler_record"], ["handler_raise", "wakeup"], ["handler_ign"]):
